@@ -16,6 +16,7 @@ import (
 	"errors"
 	"fmt"
 	"strings"
+	"time"
 
 	"github.com/sourcenetwork/corekv"
 
@@ -30,6 +31,7 @@ type txOp struct {
 }
 
 type txObs struct {
+	events  int // update events received right after this step
 	op      txOp
 	readVal *int // nil: document absent
 	present bool
@@ -131,8 +133,9 @@ func (w *txnWorld) readDoc(exec func(string) *client.RequestResult, d int) (*int
 	return nil, true, fmt.Sprintf("unexpected value %v", rows[0]["bal"])
 }
 
-func runTxnSchedule(e *Env, ctx context.Context, x *Nd, serial int, ndocs int, sched []txOp) ([]txObs, bool) {
+func runTxnSchedule(e *Env, ctx context.Context, x *Nd, serial int, ndocs int, sched []txOp, concurrent bool) ([]txObs, bool) {
 	w := &txnWorld{x: x, ctx: ctx, docIDs: map[int]string{}, tag: fmt.Sprintf("s%d_%d", e.Seed, serial)}
+	x.drainUpdates(0, 0)
 	// initial documents, committed
 	for d := 0; d < ndocs; d++ {
 		data, errs := x.gql(ctx, fmt.Sprintf(`mutation { create_Acct(input: {name: "%s_d%d", bal: %d}) { _docID } }`, w.tag, d, d))
@@ -141,7 +144,11 @@ func runTxnSchedule(e *Env, ctx context.Context, x *Nd, serial int, ndocs int, s
 		}
 		w.docIDs[d] = fmt.Sprint(rowsOf(data, "create_Acct")[0]["_docID"])
 	}
+	if got := len(x.drainUpdates(ndocs, 2*time.Second)); got != ndocs {
+		e.violate("txn-events", fmt.Sprintf("%d update events for %d committed creates", got, ndocs), nil)
+	}
 	txns := map[int]client.Txn{}
+	nWrites := map[int]int{}
 	execOut := func(q string) *client.RequestResult { return x.n.DB.ExecRequest(ctx, q) }
 	var obs []txObs
 	allDocs := func() []int {
@@ -168,7 +175,13 @@ func runTxnSchedule(e *Env, ctx context.Context, x *Nd, serial int, ndocs int, s
 		execIn := func(q string) *client.RequestResult { return t.ExecRequest(ctx, q) }
 		switch o.kind {
 		case "begin":
-			nt, err := x.n.DB.NewTxn(ctx, false)
+			var nt client.Txn
+			var err error
+			if concurrent {
+				nt, err = x.n.DB.NewConcurrentTxn(ctx, false)
+			} else {
+				nt, err = x.n.DB.NewTxn(ctx, false)
+			}
 			if err != nil {
 				panic(err)
 			}
@@ -187,6 +200,8 @@ func runTxnSchedule(e *Env, ctx context.Context, x *Nd, serial int, ndocs int, s
 				ob.ok = false
 			} else if len(rowsOf(asMap(res.GQL.Data), "update_Acct")) == 0 {
 				ob.ok = false // no such (visible) document: nothing written
+			} else {
+				nWrites[o.txn]++
 			}
 		case "create":
 			res := execIn(fmt.Sprintf(`mutation { create_Acct(input: {name: "%s_d%d", bal: %d}) { _docID } }`, w.tag, o.doc, o.val))
@@ -195,6 +210,7 @@ func runTxnSchedule(e *Env, ctx context.Context, x *Nd, serial int, ndocs int, s
 				ob.ok = false
 			} else {
 				w.docIDs[o.doc] = fmt.Sprint(rowsOf(asMap(res.GQL.Data), "create_Acct")[0]["_docID"])
+				nWrites[o.txn]++
 			}
 		case "delete":
 			id := w.docIDs[o.doc]
@@ -204,6 +220,8 @@ func runTxnSchedule(e *Env, ctx context.Context, x *Nd, serial int, ndocs int, s
 				ob.ok = false
 			} else if len(rowsOf(asMap(res.GQL.Data), "delete_Acct")) == 0 {
 				ob.ok = false
+			} else {
+				nWrites[o.txn]++
 			}
 		case "commit":
 			if err := t.Commit(ctx); err != nil {
@@ -215,6 +233,13 @@ func runTxnSchedule(e *Env, ctx context.Context, x *Nd, serial int, ndocs int, s
 			}
 		case "discard":
 			t.Discard(ctx)
+		}
+		if o.kind == "commit" && ob.ok {
+			// wait for the events of the successful writes of this transaction, then a little longer for extra ones
+			ob.events = len(x.drainUpdates(nWrites[o.txn], time.Second))
+			ob.events += len(x.drainUpdates(1<<30, 2*time.Millisecond))
+		} else {
+			ob.events = len(x.drainUpdates(1<<30, time.Millisecond))
 		}
 		for _, d := range allDocs {
 			v, present, perr := w.readDoc(execOut, d)
@@ -240,6 +265,7 @@ func runTxnSchedule(e *Env, ctx context.Context, x *Nd, serial int, ndocs int, s
 
 // reference semantics computed from the schedule and the observed commit results only
 type refTxn struct {
+	writeLog []int // one entry per successful document-level write (each becomes a commit in the DAG)
 	snap    map[int]*int
 	writes  map[int]*int // nil pointer value = deleted/absent
 	wrote   map[int]bool
@@ -314,6 +340,7 @@ func checkTxnSchedule(e *Env, sched []txOp, obs []txObs, ndocs int, replay any) 
 				v := o.val
 				t.writes[o.doc] = &v
 				t.wrote[o.doc] = true
+				t.writeLog = append(t.writeLog, o.doc)
 			} else if cur != nil && !ob.ok {
 				e.violate("txn-write-rejected", fmt.Sprintf("step %d %v was rejected (%s) although the document is visible in the transaction", i, o, ob.err), replay)
 			} else if cur == nil && ob.ok {
@@ -324,6 +351,7 @@ func checkTxnSchedule(e *Env, sched []txOp, obs []txObs, ndocs int, replay any) 
 				v := o.val
 				t.writes[o.doc] = &v
 				t.wrote[o.doc] = true
+				t.writeLog = append(t.writeLog, o.doc)
 			}
 		case "delete":
 			cur, own := t.writes[o.doc]
@@ -333,10 +361,14 @@ func checkTxnSchedule(e *Env, sched []txOp, obs []txObs, ndocs int, replay any) 
 			if cur != nil && ob.ok {
 				t.writes[o.doc] = nil
 				t.wrote[o.doc] = true
+				t.writeLog = append(t.writeLog, o.doc)
 			}
 		case "commit":
 			t.active = false
 			t.ended = i
+			if want := len(t.writeLog); ob.ok && ob.events != want {
+				e.violate("txn-events", fmt.Sprintf("step %d %v committed %d document changes but %d update events were published", i, o, want, ob.events), replay)
+			}
 			if ob.ok {
 				for d, v := range t.writes {
 					committed[d] = v
@@ -371,6 +403,9 @@ func checkTxnSchedule(e *Env, sched []txOp, obs []txObs, ndocs int, replay any) 
 			t.active = false
 			t.ended = i
 		}
+		if (o.kind != "commit" || !ob.ok) && ob.events > 0 {
+			e.violate("txn-event-uncommitted", fmt.Sprintf("step %d %v: %d update events were published although nothing was committed by this step", i, o, ob.events), replay)
+		}
 		// invisibility / atomic visibility: the outside view is exactly the committed state
 		for j, d := range allDocs {
 			if j < len(ob.probe) && ob.probe[j] != show(committed[d]) {
@@ -385,7 +420,6 @@ func engTxn(e *Env) {
 	r := NewRng(e.Seed)
 	e.Res.Rule = "two (all interleavings) or three (sampled interleavings) explicit transactions of 1-3 operations (read by docID, update, create, delete; commit or discard) over 2 documents on one real node, probe reads outside after every step; distinct = distinct schedule; non-trivial = two transactions touch a common document"
 	x := newNd(ctx, "T")
-	x.noEvents()
 	defer x.close(ctx)
 	x.addSchema(ctx, `type Acct { name: String @index bal: Int }`)
 	nPrograms := 14
@@ -409,7 +443,7 @@ func engTxn(e *Env) {
 		for t := 0; t < m; t++ {
 			progs = append(progs, genTxnProgram(r, t, ndocs, &fresh))
 		}
-		budget := 140
+		budget := 100
 		if m == 3 {
 			budget = 60
 		}
@@ -429,12 +463,18 @@ func engTxn(e *Env) {
 				break
 			}
 			serial++
-			obs, _ := runTxnSchedule(e, ctx, x, serial, ndocs, sched)
+			concurrent := serial%2 == 0
+			if concurrent {
+				e.count("flavour_concurrent_txn")
+			} else {
+				e.count("flavour_txn")
+			}
+			obs, _ := runTxnSchedule(e, ctx, x, serial, ndocs, sched, concurrent)
 			var names []string
 			for _, o := range sched {
 				names = append(names, o.String())
 			}
-			replay := map[string]any{"documents": ndocs, "schedule": names}
+			replay := map[string]any{"documents": ndocs, "schedule": names, "concurrent_txn_flavour": concurrent}
 			checkTxnSchedule(e, sched, obs, ndocs, replay)
 			e.Res.Evaluations++
 			e.count(fmt.Sprintf("txns_%d", m))
